@@ -173,6 +173,23 @@ def rule_b1(ctx: Ctx) -> None:
     if not (isinstance(upd, ast.AugAssign) and isinstance(upd.op, (ast.BitOr, ast.Add))):
         ctx.violation("C09-B1", rk, upd, "bits are not accumulated with |= (or +=)")
         return
+    acc = unparse(upd.target)
+    acc0 = envr.get(acc)
+    last = rk.body[-1]
+    if acc0 is None or acc0 != Poly.const(0):
+        ctx.violation("C09-B1", rk, rk.body[0], f"the rank accumulator `{acc}` does not start at 0: rank and unrank are no longer inverse (offset)")
+        return
+    if not (isinstance(last, ast.Return) and last.value is not None and unparse(last.value) == acc):
+        ctx.violation("C09-B1", rk, last, f"rank does not return the accumulated bits `{acc}`")
+        return
+    un_ret = un.body[-1]
+    if not (isinstance(un_ret, ast.Return) and isinstance(un_ret.value, ast.Call) and unparse(un_ret.value.func) in ("cls", "MeshPatt") and len(un_ret.value.args) == 2 and unparse(un_ret.value.args[0]) == patt):
+        ctx.violation("C09-B1", un, un_ret, "unrank does not return cls(pattern, <cells of the 1-bits>)")
+        return
+    sh_arg = un_ret.value.args[1]
+    if not (sh_arg is ge[0] or (isinstance(sh_arg, ast.Name) and any(isinstance(st, ast.Assign) and unparse(st.targets[0]) == sh_arg.id and st.value is ge[0] for st in un.body))):
+        ctx.violation("C09-B1", un, un_ret, "unrank does not build the pattern from the cells of the 1-bits")
+        return
     envr2 = dict(envr)
     envr2[x], envr2[y] = Poly.sym("X"), Poly.sym("Y")
     try:
@@ -358,8 +375,10 @@ def _variants():
         V("rank-table-off-by-one", replace_expr(PE, "Perm.rank", "fact[i] * (i + 1)", "fact[i] * i"), "fire", "C09-F1"),
         V("unrank-table-len-form", replace_expr(PE, "Perm.unrank", "i * factorial[-1]", "len(factorial) * factorial[-1]"), "silent"),
         V("unrank-shared-table", [insert_stmt(PE, "Perm", "ind2perm = unrank", "_FACTORIALS = [1, 1]", "after"), replace_stmt(PE, "Perm.unrank", "factorial = [1, 1]", "factorial = cls._FACTORIALS")], "undecided", "C09-H1"),
+        V("mesh-rank-offset", replace_stmt(MP, "MeshPatt.rank", "n, res = (len(self), 0)", "n, res = (len(self), 1)"), "fire", "C09-B1"),
+        V("mesh-unrank-drops-shading", replace_stmt(MP, "MeshPatt.unrank", "return cls(pattern, shading)", "return cls(pattern, [])"), "fire", "C09-B1"),
         V("of-length-filtered", replace_expr(PE, "Perm.of_length", "(cls(perm) for perm in itertools.permutations(range(length)))", "(cls(perm) for perm in itertools.permutations(range(length)) if perm)"), "fire", "C09-G1"),
-        V("of-length-reversed", replace_expr(PE, "Perm.of_length", "itertools.permutations(range(length))", "itertools.permutations(range(length - 1, -1, -1))"), "fire", "C09-G1"),
+        V("of-length-reversed", replace_expr(PE, "Perm.of_length", "itertools.permutations(range(length))", "itertools.permutations(range(length - 1, -1, -1))"), "fire-or-undecided", "C09-G1", note="three arguments changed at once: beyond a point change"),
         V("up-to-length-exclusive", replace_expr(PE, "Perm.up_to_length", "range(length + 1)", "range(length)"), "fire", "C09-G1"),
         V("all-starts-at-1", replace_stmt(PE, "Perm._all", "length = 0", "length = 1"), "fire", "C09-G1"),
         V("all-step-2", replace_stmt(PE, "Perm._all", "length += 1", "length += 2"), "fire", "C09-G1"),
